@@ -2,43 +2,22 @@
     same fixture tree and the same history of requests as the real [kvarn::handle_cache]
     (harness/src/c01pipe.rs) on every run.
 
-    The fixture (files on disk) becomes a [node] tree, [fs := read_path root root]; the response
-    cache ([Host::response_cache], moka) is an association list from the cache key to the stored
-    response, threaded through the history:
-      - looked up under the key of the Prime override if there is one, else of the request URI
-        after [resolve_prime] ([handle_cache]: [UriKey::path_and_query(overide_uri.unwrap_or(request.uri()))]);
-      - filled under the path of the request URI after [resolve_prime]
-        ([get_response]: [PathQuery::from(request.uri())], [maybe_cache]) for GET / HEAD when the
-        status passes [default_status_code_cache_filter] and the server cache preference is not [None].
+    The fixture (files on disk) becomes a [node] tree, [rd := read_path root root]; the state threaded
+    through a history is the response cache and the file cache.
+    The response cache ([Host::response_cache], moka) is an association list from [UriKey]s to the
+    stored responses:
+      - looked up under [UriKey::PathQuery] of the Prime override if there is one, else of the request
+        URI after [resolve_prime], then under [UriKey::Path] of the same
+        ([handle_cache]: [UriKey::path_and_query(overide_uri.unwrap_or(request.uri()))]);
+      - filled under the same URI ([get_response]: [PathQuery::from(overide_uri.unwrap_or(request.uri()))],
+        [maybe_cache]: the [PathQuery] key when the server cache preference is [QueryMatters], else the
+        [Path] key) for GET / HEAD when the status passes [default_status_code_cache_filter] and the
+        server cache preference is not [None].
+    The file cache is [PathSanServe.fcache].  Each answer also lists the objects the operating system
+    was asked to open while the request was handled (observed on the real side with inotify).
     Definitions only. *)
-From KV Require Export Bytes PathSan.
+From KV Require Export Bytes PathSan PathSanServe.
 Open Scope N_scope.
-
-(** ---------------------------------------------------------------------------
-    Fixture: a list of (path relative to the run directory, content) becomes a tree. *)
-Fixpoint set_assoc (k : bytes) (v : node) (l : list (bytes * node)) : list (bytes * node) :=
-  match l with
-  | [] => [(k, v)]
-  | (k', v') :: r => if beq k' k then (k, v) :: r else (k', v') :: set_assoc k v r
-  end.
-
-Fixpoint insert_at (segs : list bytes) (c : bytes) (n : node) : node :=
-  match segs with
-  | [] => File c
-  | s :: r =>
-      let ch := match n with Dir ch => ch | File _ => [] end in
-      let sub := match assoc s ch with Some x => x | None => Dir [] end in
-      Dir (set_assoc s (insert_at r c sub) ch)
-  end.
-
-Definition tree_of (files : list (bytes * bytes)) : node :=
-  fold_left (fun n f => insert_at (segments (fst f)) (snd f) n) files (Dir []).
-
-(** where the run directory sits in the model's tree (the real one is
-    [<verif>/.run/<pid>-<n>]; nothing in the output depends on its name) *)
-Definition run_dir : bytes := B "/srv/run".
-Definition fixture_root (files : list (bytes * bytes)) : pos :=
-  (Dir [(B "srv", Dir [(B "run", tree_of files)])], []).
 
 (** ---------------------------------------------------------------------------
     The extensions of the fixture host. *)
@@ -61,8 +40,9 @@ Definition override_of (default_ext : bool) (m : bytes) (okind : N) : option byt
 Definition meth_of (m : bytes) : meth :=
   if beq m (B "GET") then MGet else if beq m (B "HEAD") then MHead else MOther.
 
-(** a concrete response: status, body as the harness reports it, server cache preference is not None *)
-Record cresp := { c_status : N; c_body : bytes; c_store : bool }.
+(** a concrete response: status, body as the harness reports it, server cache preference is not
+    [None], server cache preference is [QueryMatters] *)
+Record cresp := { c_status : N; c_body : bytes; c_store : bool; c_qm : bool }.
 
 Definition errpage : bytes := B "ERRPAGE".
 Definition cors_denied : bytes := B "CORS request denied".
@@ -75,9 +55,12 @@ Definition status_cacheable (s : N) : bool :=
 Record pcfg := {
   pc_default_ext : bool;
   pc_cache : bool;
+  pc_fcache : bool;
   pc_host : host_cfg;
-  pc_fs : bytes -> option bytes;
-  pc_handlers : list (bytes * (bytes * N))     (* path -> body, spref (0 = None) *)
+  pc_fs : bytes -> option bytes;                 (* what the operating system returns for a path string *)
+  pc_tree : node;                                (* the same tree, for the list of opened objects *)
+  pc_host_header : bytes;                        (* what the client writes into the Host header (HTTP/1.1, in process) *)
+  pc_handlers : list (bytes * (bytes * N))       (* path -> body, spref (0 = None, 1 = QueryMatters, 2 = Full) *)
 }.
 
 (** [HashMap::insert]: a later handler for the same path replaces the earlier one *)
@@ -110,78 +93,254 @@ Definition log_of (c : pcfg) (ev : list event) : list bytes :=
 (** what the Prepare extension bound to [k] answers ([okind] as above, [m] the method) *)
 Definition prepare_response (c : pcfg) (k : bytes) (okind : N) : cresp :=
   match handler_last k 0 (pc_handlers c) None with
-  | Some (_, (body, spref)) => {| c_status := 200; c_body := body; c_store := negb (spref =? 0) |}
+  | Some (_, (body, spref)) => {| c_status := 200; c_body := body; c_store := negb (spref =? 0); c_qm := spref =? 1 |}
   | None =>
       if beq k cors_options && ((okind =? 0) || (okind =? 1) || (okind =? 4)) then
         (* [options_prepare] with [Cors::empty()]: same-origin requests are allowed: 204, cache preference None *)
-        {| c_status := 204; c_body := []; c_store := false |}
-      else {| c_status := 403; c_body := cors_denied; c_store := true |}
+        {| c_status := 204; c_body := []; c_store := false; c_qm := false |}
+      else {| c_status := 403; c_body := cors_denied; c_store := true; c_qm := false |}
   end.
 
-Definition cache_t := list (bytes * cresp).
-Fixpoint cache_get (k : bytes) (l : cache_t) : option cresp :=
+(** [comprash::UriKey]: [Path(path)] | [PathQuery { string = path ++ query, query_start = |path| }] *)
+Inductive ckey := KPath (p : bytes) | KPQ (s : bytes) (i : nat).
+Definition ckey_eqb (a b : ckey) : bool :=
+  match a, b with
+  | KPath p, KPath q => beq p q
+  | KPQ s i, KPQ t j => beq s t && Nat.eqb i j
+  | _, _ => false
+  end.
+
+Definition cache_t := list (ckey * cresp).
+Fixpoint cache_get (k : ckey) (l : cache_t) : option cresp :=
   match l with
   | [] => None
-  | (k', v) :: r => if beq k' k then Some v else cache_get k r
+  | (k', v) :: r => if ckey_eqb k' k then Some v else cache_get k r
   end.
 
-Definition abstract (r : cresp) : reply := {| r_status := c_status r; r_body := None; r_from_cache := false |}.
+Definition abstract (r : cresp) : reply := {| r_status := c_status r; r_body := None; r_err := None; r_from_cache := false |}.
 
-Definition x_cresp (r : cresp) (log : list bytes) : xval := XL [XN (c_status r); XB (c_body r); x_list XB log].
+(** ---------------------------------------------------------------------------
+    Fixture: a list of (path relative to the run directory, content) becomes a tree. *)
+Fixpoint set_assoc (k : bytes) (v : node) (l : list (bytes * node)) : list (bytes * node) :=
+  match l with
+  | [] => [(k, v)]
+  | (k', v') :: r => if beq k' k then (k, v) :: r else (k', v') :: set_assoc k v r
+  end.
 
-(** one request: the answer as the harness reports it and the new cache *)
-Definition step_request (c : pcfg) (cache : cache_t) (m target : bytes) (okind : N) : xval * cache_t :=
-  if negb (starts_with [c_slash] target) then (XL [XN 96], cache) else
-  match uri_path target with
-  | None => (XL [XN 96], cache)
-  | Some p =>
+Fixpoint insert_at (segs : list bytes) (c : bytes) (n : node) : node :=
+  match segs with
+  | [] => File c
+  | s :: r =>
+      let ch := match n with Dir ch => ch | File _ => [] end in
+      let sub := match assoc s ch with Some x => x | None => Dir [] end in
+      Dir (set_assoc s (insert_at r c sub) ch)
+  end.
+
+Definition tree_of (files : list (bytes * bytes)) : node :=
+  fold_left (fun n f => insert_at (segments (fst f)) (snd f) n) files (Dir []).
+
+(** where the run directory sits in the model's tree (the real one is
+    [<verif>/.run/<pid>-<n>]; nothing in the output depends on its name) *)
+Definition run_dir : bytes := B "/srv/run".
+Definition run_names : list bytes := [B "srv"; B "run"].
+Definition fixture_tree (files : list (bytes * bytes)) : node :=
+  Dir [(B "srv", Dir [(B "run", tree_of files)])].
+Definition fixture_root (files : list (bytes * bytes)) : pos := (fixture_tree files, []).
+
+(** the objects opened below the run directory, as the harness names them: the path relative to the
+    run directory, "." for the run directory itself, a directory with a trailing '/'; what lies
+    above the run directory is not watched *)
+Fixpoint strip_names (pre l : list bytes) : option (list bytes) :=
+  match pre, l with
+  | [], _ => Some l
+  | a :: pre', b :: l' => if beq a b then strip_names pre' l' else None
+  | _ :: _, [] => None
+  end.
+Fixpoint join_names (l : list bytes) : bytes :=
+  match l with
+  | [] => []
+  | [a] => a
+  | a :: r => a ++ [c_slash] ++ join_names r
+  end.
+Definition open_name (tree : node) (path : bytes) : list bytes :=
+  match opened tree path with
+  | Some (names, isdir) =>
+      match strip_names run_names names with
+      | Some [] => [B "."]
+      | Some rel => [join_names rel ++ (if isdir then [c_slash] else [])]
+      | None => []
+      end
+  | None => []
+  end.
+Definition opens_of (c : pcfg) (os : list bytes) : list bytes := flat_map (open_name (pc_tree c)) os.
+
+Definition x_cresp (r : cresp) (log opens : list bytes) : xval :=
+  XL [XN (c_status r); XB (c_body r); x_list XB log; x_list XB opens].
+
+Definition pstate : Type := (cache_t * fcache)%type.
+
+(** the keys of a request: [UriKey::path_and_query] of the override / the primed URI, and its [Path] form *)
+Definition keys_of (ov : option bytes) (p' : bytes) (q : option bytes) : ckey * ckey :=
+  let kpath := match ov with Some k => k | None => p' end in
+  let qtext := match ov, q with None, Some q => q | _, _ => [] end in
+  (KPQ (kpath ++ qtext) (length kpath), KPath kpath).
+
+Definition cache_lookup (on : bool) (kpq kp : ckey) (cache : cache_t) : option cresp :=
+  if on then match cache_get kpq cache with Some e => Some e | None => cache_get kp cache end else None.
+
+(** [Cors::is_part_of_origin]: the request is of the same origin as its [Origin] header when the scheme and the
+    AUTHORITY of its URI equal the header's.  The URI is "http://localhost" ++ target: a target that does not
+    start with '/', '?' or '#' lengthens the authority, so an [Origin] of the site itself (kinds 1, 4) is then a
+    foreign one (kinds 2, 3); and a Host header naming the other site makes ITS [Origin] the request's own. *)
+Fixpoint take_authority (s : bytes) : bytes :=
+  match s with
+  | [] => []
+  | c :: r => if (c =? 47) || (c =? 63) || (c =? 35) then [] else c :: take_authority r
+  end.
+Definition eff_kind_h (host_header target : bytes) (okind : N) : N :=
+  let a := take_authority (host_header ++ target) in
+  let own := beq a (B "localhost") in            (* kinds 1, 4: Origin: http://localhost *)
+  let other := beq a (B "other.example") in      (* kinds 2, 3: Origin: http://other.example *)
+  if okind =? 1 then (if own then 1 else 2)
+  else if okind =? 4 then (if own then 4 else 3)
+  else if okind =? 2 then (if other then 1 else 2)
+  else if okind =? 3 then (if other then 4 else 3)
+  else okind.
+Definition eff_kind : bytes -> N -> N := eff_kind_h (B "localhost").
+
+(** what can be written into an HTTP/1.1 request line (or an HTTP/2 header field) without changing its framing *)
+Definition wire_ok (s : bytes) : bool :=
+  negb (is_empty s) && forallb (fun c => (32 <? c) && negb (c =? 127)) s.
+
+(** A front end: how a request target (HTTP/1.1) / [:path] (HTTP/2) becomes the URI of the request, which
+    [Origin] headers are the site's own, what the client can put on the connection at all, and whether a HEAD
+    answer arrives without its body. *)
+Record front := {
+  f_uri : bytes -> option (bytes * option bytes);
+  f_kind : bytes -> N -> N;
+  f_sendable : bytes -> bytes -> bool;
+  f_headless : bool
+}.
+(** in process (harness/src/c00pipe.rs make_request) and kvarn's HTTP/1 readers: "http://" ++ Host header ++ target *)
+Definition front_inproc_h (hh : bytes) : front :=
+  {| f_uri := uri_of hh; f_kind := eff_kind_h hh; f_sendable := fun _ _ => true; f_headless := false |}.
+Definition front_h1_h (hh : bytes) : front :=
+  {| f_uri := uri_of hh; f_kind := eff_kind_h hh; f_sendable := fun m t => wire_ok m && wire_ok t; f_headless := true |}.
+Definition front_inproc : front := front_inproc_h (B "localhost").
+Definition front_h1 : front := front_h1_h (B "localhost").
+(** HTTP/2: the h2 crate builds the URI from [:scheme], [:authority] and [PathAndQuery::from_maybe_shared(:path)];
+    the authority is the site's whatever the path is; a CONNECT request carries no [:path].  [front_h2]: the h2
+    crate's client, which sends origin-form paths only; [front_h2raw]: a client that writes the HEADERS frame
+    itself and can put any text into [:path]. *)
+Definition h2_ok (m t : bytes) : bool :=
+  wire_ok m && wire_ok t && starts_with [c_slash] t && negb (beq m (B "CONNECT")).
+Definition front_h2 : front :=
+  {| f_uri := pq_parse; f_kind := fun _ k => k; f_sendable := h2_ok; f_headless := true |}.
+Definition front_h2raw : front :=
+  {| f_uri := fun t => if utf8_valid t then pq_parse t else None;   (* HPACK: the whole [:path] value has to be UTF-8 ([BytesStr]) *)
+     f_kind := fun _ k => k;
+     f_sendable := fun m t => wire_ok m && wire_ok t && negb (beq m (B "CONNECT")); f_headless := true |}.
+
+(** one request: the answer as the harness reports it ([fmt]: from the response, the Prepare log and the
+    path strings handed to the operating system) and the new state *)
+Definition step_request_with (f : front) (fmt : cresp -> list bytes -> list bytes -> xval)
+    (c : pcfg) (st : pstate) (m target : bytes) (okind0 : N) : xval * pstate :=
+  match f_uri f target with
+  | None => (XL [XN 96], st)
+  | Some (p, q) =>
       let h := pc_host c in
+      let okind := f_kind f target okind0 in
       let ov := override_of (pc_default_ext c) m okind in
       let p' := primed_path h p in
-      let key := match ov with Some k => k | None => p' end in
-      let hit := if pc_cache c then cache_get key cache else None in
-      let '(r, ev) := serve h (pc_fs c) (meth_of m) ov (option_map abstract hit) p in
-      if r_status r =? 0 then (XL [XN 2], cache) else
+      let '(kpq, kp) := keys_of ov p' q in
+      let hit := cache_lookup (pc_cache c) kpq kp (fst st) in
+      let '(r, ev, fc', os) := serve_st h (pc_fs c) (pc_fcache c) (snd st) (meth_of m) ov (option_map abstract hit) p in
+      if r_status r =? 0 then (XL [XN 2], st) else
       let log := log_of c ev in
       match r_from_cache r, hit with
-      | true, Some cr => (x_cresp cr log, cache)
+      | true, Some cr => (fmt cr log os, (fst st, fc'))
       | _, _ =>
           let cr :=
             match find_run ev with
             | Some k => prepare_response c k okind
             | None =>
-                match r_body r with
-                | Some content => {| c_status := r_status r; c_body := content; c_store := true |}
-                | None => {| c_status := r_status r; c_body := errpage; c_store := true |}
-                end
+                (* [handle_request] answers with [FatResponse::cache] (preference Full); the 400 of
+                   [sanitize_error_into_response] has the preference None *)
+                let body := match r_body r, r_err r with
+                            | Some content, _ => content
+                            | None, Some page => page
+                            | None, None => errpage
+                            end in
+                {| c_status := r_status r; c_body := body; c_store := negb (r_status r =? E_UNSAFE); c_qm := false |}
             end in
           let store := pc_cache c && c_store cr && status_cacheable (c_status cr) &&
                        match meth_of m with MOther => false | _ => true end in
-          (x_cresp cr log, if store then (p', cr) :: cache else cache)
+          (fmt cr log os, (if store then ((if c_qm cr then kpq else kp), cr) :: fst st else fst st, fc'))
       end
   end.
 
-(** a history is made of requests and of "alias" steps that copy the cache entry stored under one
-    key to another key (any cache content: theorem 2b quantifies over the entry found) *)
+(** status, body, Prepare log, the objects opened (what inotify reports) *)
+Definition fmt_std (c : pcfg) (cr : cresp) (log os : list bytes) : xval := x_cresp cr log (opens_of c os).
+Definition step_request (c : pcfg) : pstate -> bytes -> bytes -> N -> xval * pstate :=
+  step_request_with front_inproc (fmt_std c) c.
+
+(** status and the distinct path strings handed to the operating system (what a system-call trace of the
+    file-related calls shows: open and stat, successful or not), relative to the run directory *)
+Definition strip_run (f : bytes) : bytes :=
+  if starts_with (run_dir ++ [c_slash]) f then skipn (length run_dir + 1) f else f.
+Fixpoint dedup (seen l : list bytes) : list bytes :=
+  match l with
+  | [] => []
+  | a :: r => if existsb (beq a) seen then dedup seen r else a :: dedup (a :: seen) r
+  end.
+(** a path string with a NUL byte never reaches a system call: [std::fs] refuses it (CString) *)
+Definition fmt_sys (cr : cresp) (log os : list bytes) : xval :=
+  XL [XN (c_status cr); x_list XB (dedup [] (map strip_run (filter (fun f => negb (mem_byte 0 f)) os)))].
+
+(** a history is made of requests and of "alias" steps that copy the cache entry stored under the
+    [Path] key of one path to the [Path] key of another (any cache content: theorem 2b quantifies
+    over the entry found) *)
 Inductive op :=
 | OReq (m t : bytes) (k : N)
 | OAlias (from to_ : bytes).
 
-Definition step_op (c : pcfg) (cache : cache_t) (o : op) : xval * cache_t :=
+Definition strip_head_body (m : bytes) (x : xval) : xval :=
+  if beq m (B "HEAD") then
+    match x with
+    | XL [XN s; XB _; l; o] => XL [XN s; XB []; l; o]
+    | _ => x
+    end
+  else x.
+
+(** one step of a history through the front end [f]: a request the client cannot put on the connection is not
+    sent (96) *)
+Definition step_op_with (f : front) (fmt : cresp -> list bytes -> list bytes -> xval)
+    (c : pcfg) (st : pstate) (o : op) : xval * pstate :=
   match o with
-  | OReq m t k => step_request c cache m t k
+  | OReq m t k =>
+      if f_sendable f m t then
+        let '(out, st') := step_request_with f fmt c st m t k in
+        ((if f_headless f then strip_head_body m out else out), st')
+      else (XL [XN 96], st)
   | OAlias from to_ =>
-      match (if pc_cache c then cache_get from cache else None) with
-      | Some cr => (XL [XN 1], (to_, cr) :: cache)
-      | None => (XL [XN 0], cache)
+      match (if pc_cache c then cache_get (KPath from) (fst st) else None) with
+      | Some cr => (XL [XN 1], ((KPath to_, cr) :: fst st, snd st))
+      | None => (XL [XN 0], st)
       end
   end.
 
-Fixpoint run_history (c : pcfg) (cache : cache_t) (ops : list op) : list xval :=
+Fixpoint run_history_with (f : front) (fmt : cresp -> list bytes -> list bytes -> xval)
+    (c : pcfg) (st : pstate) (ops : list op) : list xval :=
   match ops with
   | [] => []
-  | o :: r => let '(out, cache') := step_op c cache o in out :: run_history c cache' r
+  | o :: r => let '(out, st') := step_op_with f fmt c st o in out :: run_history_with f fmt c st' r
   end.
+
+(** the in-process history *)
+Definition step_op (c : pcfg) : pstate -> op -> xval * pstate := step_op_with front_inproc (fmt_std c) c.
+Definition run_history (c : pcfg) : pstate -> list op -> list xval := run_history_with front_inproc (fmt_std c) c.
+
+Definition empty_state : pstate := ([], []).
 
 (** ---------------------------------------------------------------------------
     xval interface *)
@@ -199,92 +358,70 @@ Definition d_request (x : xval) : option op :=
 Definition internal_keys (default_ext : bool) : list bytes :=
   if default_ext then [cors_fail; cors_options] else [].
 
+(** host options: (L (B errors_dir) (B extension_default) (B folder_default) (N disable_fs) (B host_header)) *)
 Definition decode_scenario (x : xval) : option (pcfg * list op) :=
   match x with
-  | XL [XL [de; ca; _fc; XB public; files; handlers]; reqs] =>
-      match d_bool de, d_bool ca, d_list d_pair_BB files, d_list d_handler handlers, d_list d_request reqs with
-      | Some de, Some ca, Some files, Some handlers, Some reqs =>
+  | XL [XL [de; ca; fc; XB public; files; handlers; XL [XB errors; XB ext; XB folder; nofs; XB hh]]; reqs] =>
+      match d_bool de, d_bool ca, d_bool fc, d_bool nofs, d_list d_pair_BB files, d_list d_handler handlers, d_list d_request reqs with
+      | Some de, Some ca, Some fc, Some nofs, Some files, Some handlers, Some reqs =>
           let root := fixture_root files in
-          Some ({| pc_default_ext := de; pc_cache := ca;
-                   pc_host := {| h_path := run_dir ++ B "/host"; h_public := public; h_redirect := de;
-                                 h_ext_default := B "html"; h_folder_default := B "index.html";
+          Some ({| pc_default_ext := de; pc_cache := ca; pc_fcache := fc;
+                   pc_host := {| h_path := run_dir ++ B "/host"; h_public := public; h_errors := errors; h_fs := negb nofs;
+                                 h_redirect := de; h_ext_default := ext; h_folder_default := folder;
                                  h_prepare_single := map fst handlers ++ internal_keys de |};
                    pc_fs := read_path root root;
+                   pc_tree := fixture_tree files;
+                   pc_host_header := hh;
                    pc_handlers := handlers |}, reqs)
-      | _, _, _, _, _ => None
+      | _, _, _, _, _, _, _ => None
       end
   | _ => None
   end.
 
-(** input: (L (L default_ext cache fcache (B public_dir) files handlers) requests), see harness/src/c01pipe.rs *)
-Definition run_pipe (x : xval) : xval :=
-  match decode_scenario x with
-  | Some (c, reqs) => XL (run_history c [] reqs)
-  | None => bad_input
-  end.
-
-(** Spec component, independent of [serve] and of [sanitize_path]: per request, must the answer be
+(** Spec component, independent of [serve_st] and of [sanitize_path]: per request, must the answer be
     400?  — exactly when the percent-decoded bytes of the URI path are [unsafe_b]. *)
-Definition spec_request (o : op) : xval :=
+Definition spec_request (f : front) (o : op) : xval :=
   match o with
   | OAlias _ _ => XN 97
-  | OReq _ t _ =>
-      if negb (starts_with [c_slash] t) then XN 96 else
-      match uri_path t with
-      | None => XN 96
-      | Some p => x_bool (unsafe_b (percent_decode p))
-      end
-  end.
-Definition run_pipe_spec (x : xval) : xval :=
-  match decode_scenario x with
-  | Some (_, reqs) => XL (map spec_request reqs)
-  | None => bad_input
+  | OReq m t _ =>
+      if f_sendable f m t then
+        match f_uri f t with
+        | None => XN 96
+        | Some (p, _) => x_bool (unsafe_b (percent_decode p))
+        end
+      else XN 96
   end.
 
-(** ---------------------------------------------------------------------------
-    The same history written as HTTP/1.1 text to a real server on a loopback port
-    ([pathsanpipe.wire]): a request line cannot carry bytes <= ' ' or DEL (not sent: 96), a HEAD
-    answer has no body; everything else is [step_op]. *)
-Definition wire_ok (s : bytes) : bool :=
-  negb (is_empty s) && forallb (fun c => (32 <? c) && negb (c =? 127)) s.
-Definition strip_head_body (m : bytes) (x : xval) : xval :=
-  if beq m (B "HEAD") then
-    match x with
-    | XL [XN s; XB _; l] => XL [XN s; XB []; l]
-    | _ => x
-    end
-  else x.
-Definition step_op_wire (c : pcfg) (cache : cache_t) (o : op) : xval * cache_t :=
-  match o with
-  | OReq m t k =>
-      if wire_ok m && wire_ok t then
-        let '(out, cache') := step_request c cache m t k in (strip_head_body m out, cache')
-      else (XL [XN 96], cache)
-  | OAlias _ _ => step_op c cache o
-  end.
-Fixpoint run_history_wire (c : pcfg) (cache : cache_t) (ops : list op) : list xval :=
-  match ops with
-  | [] => []
-  | o :: r => let '(out, cache') := step_op_wire c cache o in out :: run_history_wire c cache' r
-  end.
-Definition run_pipe_wire (x : xval) : xval :=
+(** is the host's configuration benign (hypothesis of the confinement theorems)?  executable form of
+    [PathSanServeProofs.benign_host] *)
+Definition benign_suffix_b (a : bytes) : bool :=
+  negb (has_dot_slash_b (percent_decode a)) && negb (match percent_decode a with c :: _ => c =? c_slash | [] => false end).
+Definition benign_host_b (h : host_cfg) : bool := benign_suffix_b (h_ext_default h) && benign_suffix_b (h_folder_default h).
+
+(** [pathsanpipe.run] (in process), [pathsanpipe.wire] (HTTP/1.1 text to [kvarn::handle_connection] over a
+    loopback connection), [pathsanpipe.h2] (TLS + HTTP/2, the h2 crate's client), [pathsanpipe.h2raw] (TLS + HTTP/2,
+    hand-written HEADERS frames: any [:path]), [pathsanpipe.sys] (in process under a system-call trace).
+    input: (L (L default_ext cache fcache (B public_dir) files handlers options) requests), see harness/src/c01pipe.rs.
+    The spec components' output: (L (N benign) per-request ...). *)
+Definition run_front (f : bytes -> front) (sys : bool) (x : xval) : xval :=
   match decode_scenario x with
-  | Some (c, reqs) => XL (run_history_wire c [] reqs)
+  | Some (c, reqs) => XL (run_history_with (f (pc_host_header c)) (if sys then fmt_sys else fmt_std c) c empty_state reqs)
   | None => bad_input
   end.
-Definition spec_request_wire (o : op) : xval :=
-  match o with
-  | OReq m t _ => if wire_ok m && wire_ok t then spec_request o else XN 96
-  | OAlias _ _ => XN 97
-  end.
-Definition run_pipe_spec_wire (x : xval) : xval :=
+Definition run_front_spec (f : bytes -> front) (x : xval) : xval :=
   match decode_scenario x with
-  | Some (_, reqs) => XL (map spec_request_wire reqs)
+  | Some (c, reqs) => XL (x_bool (benign_host_b (pc_host c)) :: map (spec_request (f (pc_host_header c))) reqs)
   | None => bad_input
   end.
+Definition run_pipe : xval -> xval := run_front front_inproc_h false.
 
 Definition pathsanpipe_table : list (bytes * (xval -> xval)) :=
-  [ (B "pathsanpipe.run", run_pipe);
-    (B "pathsanpipe.spec", run_pipe_spec);
-    (B "pathsanpipe.wire", run_pipe_wire);
-    (B "pathsanpipe.wire_spec", run_pipe_spec_wire) ].
+  [ (B "pathsanpipe.run", run_front front_inproc_h false);
+    (B "pathsanpipe.spec", run_front_spec front_inproc_h);
+    (B "pathsanpipe.wire", run_front front_h1_h false);
+    (B "pathsanpipe.wire_spec", run_front_spec front_h1_h);
+    (B "pathsanpipe.h2", run_front (fun _ => front_h2) false);
+    (B "pathsanpipe.h2_spec", run_front_spec (fun _ => front_h2));
+    (B "pathsanpipe.h2raw", run_front (fun _ => front_h2raw) false);
+    (B "pathsanpipe.h2raw_spec", run_front_spec (fun _ => front_h2raw));
+    (B "pathsanpipe.sys", run_front front_inproc_h true) ].
